@@ -511,7 +511,7 @@ SSH = shutil.which('ssh')
 
 def ssh_query(flag):
     try:
-        out = subprocess.run([SSH, '-Q', flag], capture_output=True, text=True, timeout=10).stdout
+        out = subprocess.run([SSH, '-Q', flag], capture_output=True, text=True, timeout=300).stdout
         return out.split()
     except Exception:       # pylint: disable=broad-except
         return []
